@@ -15,6 +15,7 @@ import (
 	"time"
 
 	"github.com/csgura/fp"
+	"github.com/csgura/fp/lazy"
 )
 
 // HarnessError is a panic value raised for trouble in the simulator itself (watchdog,
@@ -128,6 +129,7 @@ var active atomic.Pointer[Run]
 
 func init() {
 	fp.VerifSetAtomicHook(hook)
+	lazy.VerifHook = hook
 	fp.VerifSetSpawnHook(spawnHook)
 }
 
@@ -338,6 +340,21 @@ func (t *Task) park(label string, pred func() bool) {
 	if t.kill.Load() {
 		t.exitng = true
 		runtime.Goexit()
+	}
+}
+
+// Gate must be called by harness code at the entry of every callback handed to the library
+// and right after every library call returns, when the library may hold a real lock across
+// callbacks. A task that was woken from a library lock by the unlock of the task being
+// stepped runs beside it for a moment; at its first Gate (or hook) it parks, so harness code
+// is never executed by two tasks at once and the wake-up itself becomes a scheduling point.
+func (r *Run) Gate(label string) {
+	if !r.multi.Load() {
+		return
+	}
+	t := r.currentTask()
+	if t != nil && t != r.cur {
+		t.park("woken:"+label, nil)
 	}
 }
 
